@@ -121,6 +121,17 @@ def run_profile(profile, count, ops, seed, tier):
             def one(i):
                 hs = seed * 100003 + i * 7919 + props.PROFILE_SALT.get(profile, 0)
                 hf = os.path.join(d, f'h{i}.sx')
+                if profile.startswith('twin:'):
+                    base = profile[len('twin:'):]
+                    st = os.path.join(d, f'h{i}.stream')
+                    r = sh(f'timeout 1500 {BUILD}/saoh gen --profile {base} --seed {hs} --ops {ops} --out {hf} --stream {st}')
+                    open(os.path.join(d, f'h{i}.sum'), 'w').write(r.stdout)
+                    every = 1 if base.startswith('scenario:') else 6
+                    r2 = sh(f'timeout 1500 {BUILD}/saoh replay --stream {st} --seed {hs + 17} --restart-every {every}')
+                    open(os.path.join(d, f'h{i}.twin'), 'w').write(r2.stdout)
+                    open(os.path.join(d, f'h{i}.res'), 'w').write('')
+                    os.remove(hf)
+                    return r.returncode, r2.returncode
                 r = sh(f'timeout 1500 {BUILD}/saoh gen --profile {profile} --seed {hs} --ops {ops} --out {hf}')
                 open(os.path.join(d, f'h{i}.sum'), 'w').write(r.stdout)
                 r2 = sh(f'timeout 1500 {BUILD}/runner {hf} > {d}/h{i}.res 2> {d}/h{i}.err')
@@ -235,7 +246,7 @@ def main():
     halts = []
     known_all = [k for k in load_known() if k.get('property') == cid]
     profiles = list(P.get('profiles', []))
-    for sc in P.get('scenarios', []) + [k['scenario'] for k in known_all if k.get('scenario')]:
+    for sc in P.get('scenarios', []) + [k['scenario'] for k in known_all if k.get('scenario') and not k.get('clause', '').startswith('twin.')]:
         if not any(pr['name'] == 'scenario:' + sc for pr in profiles):
             profiles.insert(0, {'name': 'scenario:' + sc, 'quick': 1, 'thorough': 1, 'ops': 0})
     reproduced = set()
@@ -280,17 +291,17 @@ def main():
             fam, mcls, ook, diff, detail, mons, changed = res[1], res[2], res[3], res[4], res[5], res[6], res[7]
             mons_mine = [m for m in mons if props.monitor_of(cid, m)]
             cov['monitor_evaluations'] += 1
+            hkey = (name, hi)
+            act = active.setdefault(hkey, set())
+            # a listed finding is identified by its own clause; once that clause has fired in a
+            # history, the clauses listed as its consequences ("covers") are attributed to it
+            for k in known_all:
+                if k.get('clause') in mons:
+                    act.add(k.get('id'))
+                    if name == 'scenario:' + k.get('scenario', '?'):
+                        reproduced.add(k.get('id'))
             if mons_mine:
                 cov['monitor_failures'] += 1
-                hkey = (name, hi)
-                act = active.setdefault(hkey, set())
-                # a listed finding is identified by its own clause; once that clause has fired in a
-                # history, the clauses listed as its consequences ("covers") are attributed to it
-                for k in known_all:
-                    if k.get('clause') in mons:
-                        act.add(k.get('id'))
-                        if name == 'scenario:' + k.get('scenario', '?'):
-                            reproduced.add(k.get('id'))
                 rest = []
                 for m in mons_mine:
                     if any(k.get('clause') == m or (k.get('id') in act and m in k.get('covers', '').split(',')) for k in known_all):
@@ -316,13 +327,36 @@ def main():
                 mism.append((name, hi, hf, ln, ','.join(rel) + ' model:' + mcls + ' ' + detail))
             if len(samples) < 3 and changed:
                 samples.append({'profile': name, 'history': hi, 'line': ln, 'step': step_of(hf, ln)[:600], 'model': mcls})
+        if name.startswith('twin:'):
+            tw = cov.setdefault('twin', {'replays': 0, 'blocks': 0, 'txs': 0, 'simulations': 0, 'checktxs': 0, 'queries': 0, 'restarts': 0,
+                                         'divergences': 0, 'divergences_known_residue': 0})
+            for tf in sorted(glob.glob(os.path.join(d, 'h*.twin'))):
+                try:
+                    tj = json.loads(open(tf).read().strip().splitlines()[-1])
+                except Exception:
+                    mism.append((name, -1, tf, 0, 'twin replay produced no summary: ' + open(tf).read()[-300:]))
+                    continue
+                tw['replays'] += 1
+                for k in ('blocks', 'txs', 'simulations', 'checktxs', 'queries', 'restarts'):
+                    tw[k] += tj.get(k, 0)
+                for dv in tj.get('divergences') or []:
+                    tw['divergences'] += 1
+                    clause = 'twin.residue_divergence' if (tj.get('residue_seen', 0) > 0 and (tj.get('restarts', 0) + tj.get('simulations', 0)) > 0) else 'twin.divergence'
+                    kf = [k for k in known_all if k.get('clause') == clause or clause in k.get('covers', '').split(',')]
+                    if kf:
+                        tw['divergences_known_residue'] += 1
+                        if name == 'twin:scenario:' + kf[0].get('scenario', '?'):
+                            reproduced.add(kf[0].get('id'))
+                    else:
+                        monfail.append((name, int(re.search(r'h(\d+)\.twin', tf).group(1)), tf[:-5] + '.stream', 0, [clause + ' ' + json.dumps(dv)[:300]]))
+            cov['squares_compared'] += tw['txs']
         cov['profiles'][name] = pc
 
     # ---- classification against known findings
     known = known_all
     unlisted_mon = list(monfail)
     for k in known:
-        if k.get('id') in reproduced or not k.get('scenario'):
+        if k.get('id') in reproduced or not k.get('scenario') or any(k.get('clause') in a for a in [set().union(*active.values())] if active) and False:
             known_lines.append(f"KNOWN-FINDING: property={cid} {k.get('id')} {k.get('what', '')}")
         else:
             notes.append(f"known finding {k.get('id')} did not reproduce on this tree (scenario {k.get('scenario')}); entry kept, nothing suppressed")
